@@ -64,31 +64,29 @@ def check_responsibility(P, R):
 
 
 def check_fold(P, R):
+    """gmm.m_step adds up the statistics of every block: a recognised whole-list fold (functools.reduce, sum, a loop over the list
+    or over an iterator of it, a helper that does one of these) with + / +=."""
+    from ..engines import proto as _proto
+
     f = P.func("gmm:m_step")
     R.analysed(f)
     sp = f.value_params[0]
-    ok = False
+    v = _proto.fold_whole(P, f, sp)
+    what = "reduction of the per-block statistics"
+    if v == "partial":
+        R.violation("COVER.fold", f.key, what, "the M-step adds up a slice / a single element of the per-block statistics: some blocks never reach the model")
+    elif v == "unknown":
+        if not any(isinstance(n, ast.Name) and n.id == sp and isinstance(n.ctx, ast.Load) for n in walk_no_nested(f.node)):
+            R.violation("COVER.fold", f.key, what, "the per-block statistics are not reduced before the M-step")
+        else:
+            R.violation("COVER.fold", f.key, what, "the per-block statistics are not reduced before the M-step (no fold over the whole list found)")
+    else:
+        R.ok("COVER.fold", f.key, what, "whole-list fold")
+    # the combining operator is + / += (statistics are additive)
     for n in walk_no_nested(f.node):
         if isinstance(n, ast.Call) and src(n.func).endswith("reduce") and len(n.args) >= 2:
-            whole = isinstance(n.args[1], ast.Name) and n.args[1].id == sp
             addop = src(n.args[0]) in ("operator.iadd", "operator.add")
-            R.check(whole and addop, "COVER.fold", f.key, src(n), "folds the whole list with +", "the M-step does not add up every block's statistics (slice / other operator)", n.lineno)
-            ok = True
-        if isinstance(n, ast.Call) and isinstance(n.func, ast.Name) and n.func.id == "sum" and n.args:
-            a = n.args[0]
-            if isinstance(a, ast.Name) and a.id == sp or (isinstance(a, ast.Subscript) and src(a.value) == sp):
-                st = next((k.value for k in n.keywords if k.arg == "start"), None)
-                whole = (isinstance(a, ast.Subscript) and isinstance(a.slice, ast.Slice) and const_value(a.slice.lower) == 1 and a.slice.upper is None and st is not None and src(st) == f"{sp}[0]")
-                R.check(whole, "COVER.fold", f.key, src(n), "folds the whole list", "the M-step does not add up every block's statistics", n.lineno)
-                ok = True
-    if not ok:
-        # a loop accumulating with += over the parameter
-        for n in walk_no_nested(f.node):
-            if isinstance(n, ast.For) and isinstance(n.iter, ast.Name) and n.iter.id == sp:
-                ok = any(isinstance(x, ast.AugAssign) and isinstance(x.op, ast.Add) for x in walk_no_nested(n))
-                R.check(ok, "COVER.fold", f.key, f"for ... in {sp}", "accumulates every block", "loop over the blocks does not accumulate them")
-    if not ok:
-        R.violation("COVER.fold", f.key, "reduction of the per-block statistics", "the per-block statistics are not reduced before the M-step")
+            R.check(addop, "COVER.fold", f.key, src(n), "combined with +", "the per-block statistics are not combined with + / +=", n.lineno)
 
 
 def run(P, R, tier):
